@@ -7,8 +7,12 @@
 (* bounded early-exit loop.  One step per call the implementation makes;   *)
 (* the call log is part of the state.                                      *)
 (*                                                                         *)
-(* in = [listing : Seq("valid"|"invalid"|"unfetchable"|"nilOutcome"),      *)
-(*       ("nilOutcome": the verifier fails without handing out an outcome) *)
+(* in = [listing : Seq("valid"|"invalid"|"unfetchable"|"nilOutcome"|       *)
+(*                     "repeat"),                                          *)
+(*       ("nilOutcome": the verifier fails without handing out an outcome; *)
+(*        "repeat": the repository lists the previous signature manifest   *)
+(*        once more - it is fetched and evaluated again and counts against *)
+(*        the limit like any listed signature)                             *)
 (*       pages   : Seq(Nat)  (page sizes, summing to Len(listing)),        *)
 (*       n       : Int (attempt limit),                                    *)
 (*       ref     : "tag"|"digestMatch"|"digestMismatch"|"noTagNoDigest"|   *)
@@ -27,6 +31,10 @@ VFail(s, why) == [s EXCEPT !.pc = "done", !.verdict = "fail", !.why = why, !.ret
 
 (* absolute index of the signature at position i of the current page *)
 Abs(s) == s.off + s.i
+(* the signature a position stands for: a "repeat" stands for the one before it (a leading repeat for an invalid signature) *)
+RECURSIVE Canon(_, _)
+Canon(in, k) == IF in.listing[k] # "repeat" \/ k = 1 THEN k ELSE Canon(in, k - 1)
+Kind(in, k) == IF in.listing[Canon(in, k)] = "repeat" THEN "invalid" ELSE in.listing[Canon(in, k)]
 
 VStep(s) ==
   LET in == s.in IN
@@ -51,12 +59,12 @@ VStep(s) ==
          IF s.i > in.pages[s.page] \/ s.processed >= in.n THEN [s EXCEPT !.pc = "endpage"]
          ELSE [Call([s EXCEPT !.processed = @ + 1], "Fetch", Abs(s)) EXCEPT !.pc = "fetched"]
     [] s.pc = "fetched" ->
-         IF in.listing[Abs(s)] = "unfetchable" THEN VFail(s, "unfetchable")
-         ELSE [Call(s, "Verify", Abs(s)) EXCEPT !.pc = "verified"]
+         IF Kind(in, Abs(s)) = "unfetchable" THEN VFail(s, "unfetchable")
+         ELSE [Call(s, "Verify", Canon(in, Abs(s))) EXCEPT !.pc = "verified"]
     [] s.pc = "verified" ->
-         IF in.listing[Abs(s)] = "nilOutcome" THEN VFail(s, "verifier-gave-no-outcome")
-         ELSE IF in.listing[Abs(s)] = "valid"
-         THEN [s EXCEPT !.succeeded = Abs(s), !.outcomes = <<Abs(s)>>, !.pc = "finish"]    \* early break on success
+         IF Kind(in, Abs(s)) = "nilOutcome" THEN VFail(s, "verifier-gave-no-outcome")
+         ELSE IF Kind(in, Abs(s)) = "valid"
+         THEN [s EXCEPT !.succeeded = Abs(s), !.outcomes = <<Canon(in, Abs(s))>>, !.pc = "finish"]    \* early break on success
          ELSE [s EXCEPT !.i = @ + 1, !.pc = "item"]
     [] s.pc = "endpage" ->
          IF s.processed >= in.n THEN VFail(s, "limit-reached")
@@ -77,8 +85,8 @@ VObs(s) == [verdict |-> s.verdict, retDesc |-> s.retDesc, outcomes |-> s.outcome
 
 (* ---- declarative side ---------------------------------------------------- *)
 RefOK(in) == in.ref \in {"tag", "digestMatch"}
-FirstValid(in) == IF \E k \in 1..Len(in.listing) : in.listing[k] = "valid"
-                  THEN CHOOSE k \in 1..Len(in.listing) : in.listing[k] = "valid" /\ \A j \in 1..(k - 1) : in.listing[j] # "valid"
+FirstValid(in) == IF \E k \in 1..Len(in.listing) : Kind(in, k) = "valid"
+                  THEN CHOOSE k \in 1..Len(in.listing) : Kind(in, k) = "valid" /\ \A j \in 1..(k - 1) : Kind(in, j) # "valid"
                   ELSE 0
 (* a good, fetchable signature among the first N, nothing before it that stops the evaluation (a signature that cannot be
    fetched, a verifier that gives no outcome); an error of the listing AFTER the good signature was found does not matter *)
@@ -86,7 +94,7 @@ D_VerifySucceeds(in) ==
   /\ in.n > 0 /\ in.skip # "error"
   /\ (in.skip = "yes" \/ (/\ RefOK(in)
                          /\ FirstValid(in) # 0 /\ FirstValid(in) <= in.n
-                         /\ \A j \in 1..(FirstValid(in) - 1) : in.listing[j] \notin {"unfetchable", "nilOutcome"}))
+                         /\ \A j \in 1..(FirstValid(in) - 1) : Kind(in, j) \notin {"unfetchable", "nilOutcome"}))
 
 (***************************************************************************)
 (* Part 2 (C11): notation.SignOCI - resolve, pin the digest, merge the     *)
